@@ -9,6 +9,8 @@
       `disconnect_eq` (the exact result of `disconnect`: always `Ok`);
     * `tstep` / `trun`: one API call / a run of `Cl.COp` calls with the log (state before the call, call, result);
       `Documented`: the documented outcomes of a call;
+    * `HeadRoom c ops`: `current_time + Σ d + tmo c ≤ Duration::MAX` (`tmo c`: the token's OWN timeout as a duration) and
+      `sequence + #(update | send calls) ≤ u64::MAX`;
     * `trun_total`: along ANY trace inside the head room `HeadRoom` no call unwinds, the invariant is kept, the clock is
       `current_time + Σ d`, the counter moved by at most the number of sending calls, the token is the same, and every logged
       result is `Documented`;  `prun_total`: the same for the runner `NcClientTrace.prun`.
@@ -90,16 +92,94 @@ theorem gen_time {a : AEAD} {c c' : NetcodeClient} {o : Option (Bytes × Addr)}
         obtain ⟨sq, hsq, h⟩ := h
         cases h; rfl
 
+/-- the client's own time-out as a duration (`Duration::from_secs(connect_token.timeout_seconds as u64)`; 0 when not positive) -/
+def tmo (c : NetcodeClient) : Nat := fromSecs c.connectToken.timeoutSeconds.toNat
+
+theorem tmo_le_max {c : NetcodeClient} (h : CInv c) : tmo c ≤ TIMEOUT_MAX_NS := timeout_le h.timeout
+
+/-- `updateInternalState_sat` (`Lemmas/NcWire.lean`) with the room of the token's OWN timeout instead of the largest one -/
+theorem uis_sat_sharp (c : NetcodeClient) (d : Nat) (hinv : CInv c) (ht : c.currentTime + d + tmo c ≤ DURATION_MAX) :
+    (updateInternalState c d).Sat (fun _ => True)
+      (fun r => CInv r.2 ∧ r.2.sequence = c.sequence ∧ r.2.currentTime = c.currentTime + d) := by
+  obtain ⟨h1, h2, h3, h4, h5⟩ := hinv
+  unfold tmo at ht
+  unfold updateInternalState
+  rw [durAdd_ok (by omega)]
+  simp only [Res.bind_ok]
+  refine Res.sat_bind (Q := fun _ => True) ?_ ?_
+  · split
+    · rw [durAdd_ok (by omega)]; trivial
+    · trivial
+  intro timedOut _
+  have base : CInv { c with currentTime := c.currentTime + d } :=
+    ⟨by dsimp only; omega, fun t h => by have := h2 t h; dsimp only; omega, by dsimp only; omega, h4, h5⟩
+  split
+  · -- sendingConnectionRequest
+    rw [csub_ok (by omega)]
+    simp only [Res.bind_ok]
+    split
+    · exact ⟨⟨base.1, base.2, base.3, h4, h5⟩, rfl, rfl⟩
+    split
+    · split
+      · exact ⟨⟨base.1, base.2, base.3, h4, h5⟩, rfl, rfl⟩
+      split
+      · rename_i hidx hnone
+        have hlt : c.serverAddrIndex + 1 < c.connectToken.serverAddresses.length := by
+          have h32 : C.NETCODE_TOKEN_MAX_ADDRESSES = 32 := rfl
+          omega
+        rw [List.getElem?_eq_getElem hlt] at hnone; cases hnone
+      · exact ⟨⟨base.1, base.2, base.3, h4, h5⟩, rfl, rfl⟩
+      · exact ⟨⟨Nat.le_refl _, fun t h => (by cases h), Nat.le_refl _, h4, h5⟩, rfl, rfl⟩
+    · exact ⟨base, rfl, rfl⟩
+  · -- sendingConnectionResponse
+    rw [csub_ok (by omega)]
+    simp only [Res.bind_ok]
+    split
+    · exact ⟨⟨base.1, base.2, base.3, h4, h5⟩, rfl, rfl⟩
+    split
+    · split
+      · exact ⟨⟨base.1, base.2, base.3, h4, h5⟩, rfl, rfl⟩
+      split
+      · rename_i hidx hnone
+        have hlt : c.serverAddrIndex + 1 < c.connectToken.serverAddresses.length := by
+          have h32 : C.NETCODE_TOKEN_MAX_ADDRESSES = 32 := rfl
+          omega
+        rw [List.getElem?_eq_getElem hlt] at hnone; cases hnone
+      · exact ⟨⟨base.1, base.2, base.3, h4, h5⟩, rfl, rfl⟩
+      · exact ⟨⟨Nat.le_refl _, fun t h => (by cases h), Nat.le_refl _, h4, h5⟩, rfl, rfl⟩
+    · exact ⟨base, rfl, rfl⟩
+  · split
+    · exact ⟨⟨base.1, base.2, base.3, h4, h5⟩, rfl, rfl⟩
+    · exact ⟨base, rfl, rfl⟩
+  · exact ⟨base, rfl, rfl⟩
+
+/-- `C07.client_update_total` with the room of the token's own timeout -/
+theorem update_total_sharp (a : AEAD) (c : NetcodeClient) (d : Nat) (hinv : CInv c)
+    (ht : c.currentTime + d + tmo c ≤ DURATION_MAX) (hseq : c.sequence + 1 ≤ U64_MAX) :
+    ∃ r c', NetcodeClient.update a c d = .ok (r, c') ∧ CInv c' := by
+  have key : (NetcodeClient.update a c d).Sat (fun _ => True) (fun r => CInv r.2) := by
+    unfold NetcodeClient.update
+    refine Res.sat_bind (uis_sat_sharp c d hinv ht) ?_
+    rintro ⟨e, c1⟩ ⟨hi, hs, _⟩
+    dsimp only at hi hs ⊢
+    split
+    · exact hi
+    · exact generatePacket_sat a c1 hi (by rw [hs]; exact hseq)
+  cases h : NetcodeClient.update a c d with
+  | ok rc => rw [h] at key; exact ⟨rc.1, rc.2, rfl, key⟩
+  | err e => exact e.elim
+  | panic m => rw [h] at key; exact key.elim
+
 /-- **`update` under the invariant**: with clock and counter head room the call returns normally, keeps the invariant and the
     token, advances the clock by exactly `d` and the counter by at most one; a disconnected client sends nothing. -/
 theorem update_ct (a : AEAD) {c : NetcodeClient} (d : Nat) (hinv : CTInv c)
-    (ht : c.currentTime + d + TIMEOUT_MAX_NS ≤ DURATION_MAX) (hseq : c.sequence + 1 ≤ U64_MAX) :
+    (ht : c.currentTime + d + tmo c ≤ DURATION_MAX) (hseq : c.sequence + 1 ≤ U64_MAX) :
     ∃ o c', NetcodeClient.update a c d = .ok (o, c') ∧ CTInv c' ∧ c'.currentTime = c.currentTime + d ∧
       c.sequence ≤ c'.sequence ∧ c'.sequence ≤ c.sequence + 1 ∧ c'.connectToken = c.connectToken ∧
       (Cl.isDisc c → o = none) := by
-  obtain ⟨o, c', hu, hci⟩ := update_total a c d hinv.cinv ht hseq
+  obtain ⟨o, c', hu, hci⟩ := update_total_sharp a c d hinv.cinv ht hseq
   obtain ⟨e, c1, hu1, hh⟩ := Cl.update_eq hu
-  obtain ⟨-, hs1, ht1⟩ := (updateInternalState_sat c d hinv.cinv ht).of_ok hu1
+  obtain ⟨-, hs1, ht1⟩ := (uis_sat_sharp c d hinv.cinv ht).of_ok hu1
   dsimp only at hs1 ht1
   obtain ⟨hk1, -, -, hd1⟩ := Cl.uis_spec hu1
   rcases hh with ⟨he, rfl, rfl⟩ | ⟨rfl, hg⟩
@@ -302,10 +382,16 @@ def sends : Cl.COp → Nat
 def totalDur (ops : List Cl.COp) : Nat := (ops.map dur).sum
 def totalSends (ops : List Cl.COp) : Nat := (ops.map sends).sum
 
-/-- **the head room of a trace** (decidable): the accumulated clock stays `TIMEOUT_MAX_NS` (2^31 s, the largest `i32` timeout)
-    below `Duration::MAX`, and the number of sending calls stays below `2^64 - sequence` -/
+/-- **the head room of a trace** (decidable): the accumulated clock stays the token's own timeout `tmo c` (nothing when it is not
+    positive) below `Duration::MAX`, and the number of sending calls stays below `2^64 - sequence` -/
 def HeadRoom (c : NetcodeClient) (ops : List Cl.COp) : Prop :=
-  c.currentTime + totalDur ops + TIMEOUT_MAX_NS ≤ DURATION_MAX ∧ c.sequence + totalSends ops ≤ U64_MAX
+  c.currentTime + totalDur ops + tmo c ≤ DURATION_MAX ∧ c.sequence + totalSends ops ≤ U64_MAX
+
+/-- a token-independent sufficient condition: the room of the largest `i32` timeout, `TIMEOUT_MAX_NS` = 2^31 s -/
+theorem headRoom_of_max {c : NetcodeClient} {ops : List Cl.COp} (hinv : CTInv c)
+    (ht : c.currentTime + totalDur ops + TIMEOUT_MAX_NS ≤ DURATION_MAX) (hs : c.sequence + totalSends ops ≤ U64_MAX) :
+    HeadRoom c ops :=
+  ⟨by have := tmo_le_max hinv.cinv; omega, hs⟩
 
 instance (c : NetcodeClient) (ops : List Cl.COp) : Decidable (HeadRoom c ops) := by unfold HeadRoom; infer_instance
 
@@ -316,7 +402,7 @@ instance (c : NetcodeClient) (ops : List Cl.COp) : Decidable (HeadRoom c ops) :=
 
 /-- **one call inside the head room**: it does not unwind, the result is documented, the invariant is kept, clock and counter laws -/
 theorem tstep_total (a : AEAD) {c : NetcodeClient} (op : Cl.COp) (hinv : CTInv c)
-    (ht : c.currentTime + dur op + TIMEOUT_MAX_NS ≤ DURATION_MAX) (hseq : c.sequence + sends op ≤ U64_MAX) :
+    (ht : c.currentTime + dur op + tmo c ≤ DURATION_MAX) (hseq : c.sequence + sends op ≤ U64_MAX) :
     ∃ o c', tstep a c op = some (o, c') ∧ Documented a c op o ∧ CTInv c' ∧ c'.currentTime = c.currentTime + dur op ∧
       c.sequence ≤ c'.sequence ∧ c'.sequence ≤ c.sequence + sends op ∧ c'.connectToken = c.connectToken := by
   cases op with
@@ -366,6 +452,7 @@ theorem trun_total (a : AEAD) : ∀ (ops : List Cl.COp) {c : NetcodeClient}, CTI
     rw [totalDur_cons] at hr1
     rw [totalSends_cons] at hr2
     obtain ⟨o, c1, hs, hdoc, hi1, t1, s1, s2, k1⟩ := tstep_total a op hinv (by omega) (by omega)
+    have hk : tmo c1 = tmo c := by unfold tmo; rw [k1]
     obtain ⟨c', log, hrun, hi', t', s1', s2', k', hl, hdocs⟩ := ih hi1 ⟨by omega, by omega⟩
     refine ⟨c', (c, op, o) :: log, by simp only [trun, hs, hrun], hi', by rw [totalDur_cons]; omega, by omega,
       by rw [totalSends_cons]; omega, by rw [k', k1], by simp only [List.map_cons, hl], ?_⟩
